@@ -160,6 +160,15 @@ partial def pObjs : List String → List Obj × List String
     let (us, rest) := pUnits rest
     let (more, rest) := pObjs rest
     (.field (nat! w) (pName n) (nat! flags) us :: more, rest)
+  | "(" :: "ifield" :: w :: n1 :: n2 :: flags :: rest =>
+    let (us, rest) := pUnits rest
+    let (more, rest) := pObjs rest
+    (.indexField (nat! w) (pName n1) (pName n2) (nat! flags) us :: more, rest)
+  | "(" :: "bfield" :: w :: n1 :: n2 :: v :: flags :: rest =>
+    let (us, rest) := pUnits rest
+    let (more, rest) := pObjs rest
+    let (vw, vv) := pInt v
+    (.bankField (nat! w) (pName n1) (pName n2) (.int vw vv) (nat! flags) us :: more, rest)
   | "(" :: "mutex" :: n :: sync :: ")" :: rest =>
     let (more, rest) := pObjs rest
     (.mutex (pName n) (nat! sync) :: more, rest)
@@ -196,8 +205,7 @@ structure St where
 clause + feature): the first of the clause's candidate features that the case exhibits -/
 def featureOf (clause : String) (feats : List String) : String :=
   let cands :=
-    if clause = "parse-ok" then ["path-descends-through-scoped-object", "if-empty-body", "deferred-call-in-expression",
-                                 "deferred-nested-block", "name-caret"]
+    if clause = "parse-ok" then ["path-descends-through-scoped-object", "if-empty-body", "deferred-nested-block", "name-caret"]
     else if clause = "named-object-path" then ["name-caret", "path-descends-through-scoped-object"]
     else if clause = "call-arity" then ["call-arg-expression", "deferred-nested-block", "name-caret"]
     else []
@@ -241,9 +249,12 @@ def processLine (st : St) (line : String) : IO St := do
         | none => ("model-dead", none)
         | some t =>
           match parseAML d (fuelFor d t) handle { tree := t } with
-          | .ok (ok, s) => (observation s.tree (if ok then "ok" else "err") handle tlens 1073741824, some s.tree)
+          | .ok (ok, s) => (observation s.tree (if ok then "ok" else "err") handle tlens 1073741824 ++ s!" #passes={s.resolvePasses}", some s.tree)
           | .error .panic => ("panic", none)
           | .error .outOfFuel => ("outOfFuel", none)
+      let passes := ((m.splitOn " #passes=").getD 1 "?")
+      let m := (m.splitOn " #passes=").headD m
+      st := { st with stats := st.stats.bump s!"resolve_passes_{passes}" }
       let same := if m = "panic" ∨ m = "outOfFuel" ∨ m = "model-dead" then m = implOutcome else m = obsS.trimAscii.toString
       if !same then
         IO.println s!"MISMATCH case={st.caseId} op=T {handle} {hex} model={(m.take 200).toString} impl={(obsS.take 200).toString}"
